@@ -393,3 +393,24 @@ func (pr *procRoles) recoverHandlerOf(host *ssa.Function) *ssa.Function {
 	}
 	return nil
 }
+
+// deliverySiteClass names a delivery site of the batch function by its role, not by its expression:
+// "graceful-drain" (only reachable on the graceful edge of a recognised pill), "after-pill" (only reachable once a
+// pill was recognised) or "batch-element".
+func deliverySiteClass(w *World, g *FG, n int) string {
+	graceful, _ := g.CondEdges(func(v ssa.Value) (bool, bool) {
+		p := w.pathOf(v)
+		return true, strings.HasPrefix(p, "assert<actor.poisonPill>(") && strings.HasSuffix(p, "#0.graceful")
+	})
+	pill, _ := g.CondEdges(func(v ssa.Value) (bool, bool) {
+		p := w.pathOf(v)
+		return true, strings.HasPrefix(p, "assert<actor.poisonPill>(") && strings.HasSuffix(p, "#1")
+	})
+	switch {
+	case len(graceful) > 0 && g.OnlyVia(graceful, n):
+		return "graceful-drain"
+	case len(pill) > 0 && g.OnlyVia(pill, n):
+		return "after-pill"
+	}
+	return "batch-element"
+}
